@@ -147,6 +147,15 @@ func Cases(t *Tree, rng *rand.Rand, o CaseOpts) []*Case {
 				c.MockNames[k] = []string{"Fake", "Stub", "My", "Mocked"}[rng.Intn(4)] + ifs[k].Name
 			}
 		}
+		// outside the source package a mock may be named exactly like its interface
+		if c.Dest >= 2 && rng.Intn(6) == 0 {
+			c.MockNames[0] = ifs[0].Name
+		}
+		// the same interface may be requested twice under different mock names
+		if len(ifs) >= 2 && rng.Intn(4) == 0 {
+			c.Ifaces = append(append([]*Iface{}, ifs...), ifs[0])
+			c.MockNames = append(c.MockNames, "Second"+ifs[0].Name)
+		}
 		return c
 	}
 	for _, i := range t.Ifaces {
